@@ -1,6 +1,6 @@
 SPECIFICATION Spec
 CONSTANTS Kinds = {"hmeta"}
-  NH = 3 NObj = 2 Max = 6 MaxExtra = 1 AsFound = TRUE
+  NH = 3 NObj = 2 Max = 6 MaxExtra = 1 MaxTries = 2 AsFound = TRUE
 VIEW View
 INVARIANTS TypeOK AliveIffReferenced CountExact NoDangling ObsAgrees
 CHECK_DEADLOCK FALSE
